@@ -38,7 +38,9 @@ def run(ck, replay=None):
     exes = [(m, r, tp.build(m, r)) for m, r in tp.flavours(quick)]
     n_cells = 50 if quick else 500
     jobs, meta = [], []
-    for i, (m, r, exe) in enumerate(exes):
+    # thorough repeats the whole matrix at several seeds: the interleavings seen differ from run to run
+    reps = 1 if quick else 6
+    for i, (m, r, exe) in [(i + 5000 * rep, f) for rep in range(reps) for i, f in enumerate(exes)]:
         for scen, n, quar in (("cells", n_cells, 1), ("heapres", 40 if quick else 400, 1),
                               ("mixed", 500 if quick else 8000, 1), ("mixed", 500 if quick else 8000, 0),
                               ("churn", 24 if quick else 400, 0), ("spurious_eintr", 30 if quick else 300, 1),
